@@ -1461,6 +1461,13 @@ class State:
                 lv = ('call', 'loopvar', (src, env[vid], ('lit', vname, '')))
                 lvars[vid] = lv
                 env[vid] = lv
+        flvars = {}
+        for (vid, fname), disp in assigned_fields(body).items():
+            cur = env.get(vid)
+            if cur is not None and cur[0] == 'ctor' and cfield(cur, fname) is not None and vid not in lvars:
+                lv = ('call', 'loopvar', (src, cfield(cur, fname), ('lit', disp, '')))
+                flvars[(vid, fname)] = lv
+                env[vid] = with_field(env[vid], fname, lv)
         snapshot = dict(env)
         try:
             if not self.match(pat, elem, env, irrefutable=True):
@@ -1481,6 +1488,13 @@ class State:
             self.effect('loop_update', lv[2][2][1], (lv, upd), e)
             env[vid] = ('call', 'loop_result', (lv, upd))
             snapshot[vid] = env[vid]
+        for (vid, fname), lv in flvars.items():
+            cur = env.get(vid)
+            if cur is not None and cur[0] == 'ctor':
+                upd = cfield(cur, fname)
+                self.effect('loop_update', lv[2][2][1], (lv, upd), e)
+                env[vid] = with_field(cur, fname, ('call', 'loop_result', (lv, upd)))
+                snapshot[vid] = env[vid]
         # loop-carried locals become functions of the loop
         for kk, vv in list(env.items()):
             if kk in snapshot and snapshot[kk] != vv:
@@ -1729,6 +1743,32 @@ class State:
 
 
 NOTBUILTIN = object()
+
+
+def assigned_fields(node):
+    """{(local id, field): 'local.field'} for targets of `=` / `op=` of the form `local.field` (not in closures)"""
+    out = {}
+
+    def walk(n):
+        if isinstance(n, dict):
+            if n.get('k') == 'Closure':
+                return
+            if n.get('k') in ('Assign', 'AssignOp'):
+                t = n['a']
+                if t.get('k') == 'Field' and t['e'].get('k') == 'Path' and t['e'].get('res') == 'local' \
+                        and not (t['e'].get('ty') or '').startswith('&'):
+                    out[(t['e']['id'], t['name'])] = '%s.%s' % (t['e'].get('name'), t['name'])
+            for v in n.values():
+                walk(v)
+        elif isinstance(n, list):
+            for v in n:
+                walk(v)
+    walk(node)
+    return out
+
+
+def with_field(c, name, val):
+    return ('ctor', c[1], c[2], tuple((k, (val if k == name else v)) for k, v in c[3]))
 
 
 def assigned_locals(node):
